@@ -424,7 +424,7 @@ main(int argc, char *argv[])
 			input = arrayadd(&inputs, sizeof(*input));
 			input->name = arg;
 			input->lib = false;
-			input->filetype = filetype == NONE && arg[1] ? detectfiletype(arg) : filetype;
+			input->filetype = filetype == NONE && strcmp(arg, "-") != 0 ? detectfiletype(arg) : filetype;
 			switch (input->filetype) {
 			case ASM:    input->stages =                                     1<<ASSEMBLE|1<<LINK; break;
 			case ASMPP:  input->stages = 1<<PREPROCESS|                      1<<ASSEMBLE|1<<LINK; break;
